@@ -105,6 +105,8 @@ func init() {
 	// ghost: every element of t is an independent fresh draw from U[l,u) / N(mu, sigma) (C18; the law itself is assumed)
 	registerDomain("drawnU", []string{"T", "Real", "Real"}, "Bool", "")
 	registerDomain("drawnN", []string{"T", "Real", "Real"}, "Bool", "")
+	// ghost: the tensor that owns a gradient context (contexts are never shared)
+	registerDomain("ownerOf", []string{"R_GradContext"}, "T", "")
 	// ghost: source / target tensor of a back-edge closure
 	registerDomain("srcOf", []string{"Fn"}, "T", "")
 	registerDomain("tgtOf", []string{"Fn"}, "T", "")
